@@ -116,8 +116,23 @@ func VerifC05_Enforcement() {
 			verif.Assert("dynamic-add-share-of-current-limit", pc.Limit() == verifShare(floor1(e0), fc))
 		}
 	}
-	// a completion from an arbitrary window state
+	// a completion from an arbitrary window state, with an arbitrary number of tokens outstanding at
+	// the strategy (the new estimate may be far below it: lowering the limit revokes nothing, but the
+	// enforced limit is still the estimate)
 	verifLimiterState(l)
+	out := verif.Int("outstanding")
+	verif.Assume(out >= 0 && out < 1<<20)
+	cur := floor1(e0)
+	switch kind {
+	case 0:
+		strategy.VerifSetSimple(v.simple, int32(out), int32(cur))
+	case 1:
+		strategy.VerifSetPrecise(v.precise, int32(out), int32(cur))
+	case 2:
+		strategy.VerifSetLookup(v.lookup, int32(out), int32(out), 0, 0)
+	default:
+		strategy.VerifSetPred(v.pred, int32(out), int32(out), 0)
+	}
 	ctx := context.WithValue(context.WithValue(context.Background(), matchers.LookupPartitionContextKey, "a"), matchers.StringPredicateContextKey, "x")
 	lst, ok := l.Acquire(ctx)
 	verif.Assume(ok)
